@@ -324,9 +324,24 @@ func (g *GoBackNConn) Close() error {
 			)
 			defer cancel()
 
-			err := g.sendPacket(ctxc, &PacketFIN{}, false)
-			if err != nil {
-				g.log.Errorf("Error sending FIN: %v", err)
+			// The send function of the transport may be unable to
+			// notice the deadline, for example while another send
+			// that is stuck in a retry keeps the transport to
+			// itself until our context is canceled below. So we do
+			// not wait for it any longer than the deadline either.
+			errChan := make(chan error, 1)
+			go func() {
+				errChan <- g.sendPacket(ctxc, &PacketFIN{}, false)
+			}()
+
+			select {
+			case err := <-errChan:
+				if err != nil {
+					g.log.Errorf("Error sending FIN: %v", err)
+				}
+
+			case <-ctxc.Done():
+				g.log.Errorf("Error sending FIN: %v", ctxc.Err())
 			}
 		}
 
